@@ -40,6 +40,10 @@ func c04Alphabet() []Op {
 		Op{K: "clean"},
 		Op{K: "pclean", P: "/posts"},
 		Op{K: "pclean", P: "/p/"},
+		// rejected registrations are part of real histories too: they must leave nothing behind
+		Op{K: "reject", P: "/posts", Ms: []string{"PATCH", "BOGUS"}},
+		Op{K: "reject", P: "/posts/au", Ms: []string{"get"}},
+		Op{K: "reject", P: "/p/{y}", Ms: []string{"GET"}},
 	)
 	return ops
 }
